@@ -41,7 +41,7 @@ ALLOC_F = ["Allocator::begin_chain", "Allocator::extend_chain", "Allocator::allo
 for (n, tier) in [("alloc_begin_nofree", "quick"), ("alloc_begin_free13", "quick"), ("alloc_begin_free2", "thorough"),
                   ("alloc_extend_nofree", "quick"), ("alloc_extend_free3", "quick"),
                   ("alloc_free_chain3", "quick"), ("alloc_free_after3", "quick"), ("alloc_free_other", "thorough")]:
-    harness(n, props=["C02", "C03", "C08", "C15", "C07"], tier=tier, timeout=900, mem=8,
+    harness(n, props=["C02", "C03", "C08", "C15", "C07"], tier=tier, timeout=900, mem=4,
             stubs=[FMT] + ([STUB_COPY] if "free_" not in n else []),
             what="one allocator step (begin/extend/free chain) from a well-formed FAT: FAT cache == image cells, header FAT count, injective in-range links, free list == FREE cells exactly once, free sectors reused before the file grows, fresh sectors zero even when the reused sector held arbitrary bytes, unrelated cells and data sectors untouched",
             bounds="4 sectors (+1 appended), v3; FAT shape concrete per instance (fragmented chain 1->3->2, free sectors at 1/3, ...); contents of reused sectors symbolic",
@@ -56,12 +56,12 @@ DIRENT_F = ["DirEntry::read_from", "DirEntry::write_to", "DirEntry::read_clsid",
 for (n, tier) in [("dirent_parse_storage_v3", "quick"), ("dirent_parse_stream_v3", "quick"), ("dirent_parse_root_v3", "quick"),
                   ("dirent_parse_stream_v4", "thorough"), ("dirent_parse_unalloc_v3", "thorough"),
                   ("dirent_parse_badtype_v3", "quick")]:
-    harness(n, props=["C16", "C05", "C04"], tier=tier, timeout=1200, mem=10,
+    harness(n, props=["C16", "C05", "C04"], tier=tier, timeout=1200, mem=5,
             what="DirEntry::read_from in BOTH modes on an entry whose 61 non-name, non-type bytes are arbitrary: never panics; strict Ok => permissive Ok; acceptance in each mode equals an independent statement of MS-CFB 2.6 plus the documented tolerated deviations (CLSID/timestamps on a stream, start sector/size on a storage, wrong root name); both views equal the independently decoded logical content",
             bounds="object type concrete per instance, name field concrete ('ab'), all other 61 bytes symbolic; v3 or v4 stream-length mask",
             functions=DIRENT_F, assumes=[])
 for (n, tier) in [("dirent_rt_storage_2", "quick"), ("dirent_rt_root", "quick"), ("dirent_rt_stream_1", "thorough")]:
-    harness(n, props=["C17", "C02", "C03", "C16"], tier=tier, timeout=2400, mem=12,
+    harness(n, props=["C17", "C02", "C03", "C16"], tier=tier, timeout=2400, mem=6,
             what="write_to then read_from (strict and permissive) of an entry with arbitrary state bits, CLSID, creation/modification time, links, colour, start sector, length: bytes equal the independent MS-CFB encoder, every field read back unchanged",
             bounds="all values of the symbolic fields; concrete ASCII name; v3 (32-bit stream length) for storage/root, v4 for stream",
             functions=DIRENT_F + ["Uuid::from_fields", "Uuid::as_fields"], assumes=[])
@@ -106,7 +106,7 @@ for c in shapes.cases():
     else:
         props = ["C01", "C04", "C09"]
         what = "stream_id_for_name_chain for every present key in both letter cases and every absent key equals the abstract map"
-    harness(c["name"], props=props, tier=("quick" if c["name"] in _quick_dir else "thorough"), timeout=1800, mem=10,
+    harness(c["name"], props=props, tier=("quick" if c["name"] in _quick_dir else "thorough"), timeout=1800, mem=5,
             stubs=[FMT, STUB_UP] + ([STUB_COPY, STUB_NOW] if kind == "insert" else []),
             what=what, bounds="%d siblings in two v3 directory sectors; tree shape, slot assignment and names concrete; colours (no adjacent reds), state bits, kinds/times symbolic" % c["n"],
             functions=DIR_F, assumes=[A_SHAPE, A_UPTABLE] + ([A_NOW, A_IOCOPY] if kind == "insert" else []))
@@ -120,7 +120,7 @@ for (n, tier) in [("mini_begin_reuse", "quick"), ("mini_extend_reuse", "quick"),
                   ("mini_begin_full8", "thorough"), ("mini_extend_full16", "thorough"), ("mini_begin_bare", "thorough"),
                   ("mini_begin_after_empty", "quick"), ("mini_free_tail2", "quick"), ("mini_free_all", "quick"),
                   ("mini_free_middle", "thorough"), ("mini_free_after", "thorough"), ("mini_free_cross", "quick")]:
-    harness(n, props=["C02", "C03", "C15", "C07"], tier=tier, timeout=2400, mem=10, stubs=[FMT, STUB_COPY],
+    harness(n, props=["C02", "C03", "C15", "C07"], tier=tier, timeout=2400, mem=5, stubs=[FMT, STUB_COPY],
             what="one MiniAllocator step: MiniFAT cache == image (rest FREE), header MiniFAT start/count == chain, root entry (mini stream start/length) written through, mini stream length == 64 x MiniFAT length, root chain length == ceil(length/512), injective in-range cells, both free lists == FREE cells exactly once, free (mini) sectors reused, file grows only when required, no growth when re-allocating after everything was freed",
             bounds="5 sectors (+2 appended), <= 16 mini sectors, v3; layout concrete per instance, mini stream contents symbolic",
             functions=MINI_F, assumes=[A_IOCOPY, A_SHAPE])
@@ -134,7 +134,7 @@ for (n, tier) in [("stor_write_mid", "quick"), ("stor_write_append", "thorough")
                   ("stor_resize_in_sector", "quick"), ("stor_resize_to_128", "thorough"), ("stor_resize_to_129", "quick"),
                   ("stor_resize_shrink_64", "thorough"), ("stor_resize_shrink_63", "thorough"), ("stor_resize_to_0", "quick"),
                   ("stor_resize_reuse", "quick"), ("stor_resize_frag", "thorough")]:
-    harness(n, props=["C01", "C03", "C08", "C07", "C02", "C06", "C12"] if "read" in n else ["C01", "C03", "C08", "C07", "C02"], tier=tier, timeout=3000, mem=12,
+    harness(n, props=["C01", "C03", "C08", "C07", "C02", "C06", "C12"] if "read" in n else ["C01", "C03", "C08", "C07", "C02"], tier=tier, timeout=3000, mem=6,
             stubs=[FMT] + ([] if "read" in n else [STUB_COPY]),
             what="real storage functions on a 100-byte stream in a (possibly fragmented) mini chain next to another stream: result, new length, placement by the 4096 cutoff, chain length == ceil(size/64), every stored byte (independent FAT/MiniFAT walk over the image) equals the flat-array model, gained bytes are zero even when reused mini sectors / slack hold arbitrary bytes, the other stream and the rest of the image untouched",
             bounds="offset/length/new size concrete per instance at and next to the 64-byte boundary; all data bytes and slack symbolic",
@@ -144,17 +144,17 @@ for (n, tier) in [("stor_write_mid", "quick"), ("stor_write_append", "thorough")
 API_F = ["CompoundFile::create_stream", "CompoundFile::create_new_stream", "CompoundFile::create_storage", "CompoundFile::create_storage_all",
          "CompoundFile::remove_stream", "CompoundFile::remove_storage", "CompoundFile::open_stream", "CompoundFile::entry",
          "CompoundFile::set_state_bits", "CompoundFile::set_storage_clsid", "path::name_chain_from_path", "path::validate_name"]
-harness("api_invalid_names", props=["C09", "C10"], timeout=3000, mem=12, stubs=[FMT, STUB_UP],
+harness("api_invalid_names", props=["C09", "C10"], timeout=3000, mem=6, stubs=[FMT, STUB_UP, "OsStr :: to_str"],
         what="create_stream/create_storage/create_new_stream/create_storage_all with a forbidden character or a 32-unit name: InvalidInput, image and caches bit-identical afterwards",
         bounds="5 concrete invalid paths on a 3-entry file with symbolic contents/metadata", functions=API_F, assumes=[A_SHAPE, A_UPTABLE])
 for n in ["api_ref_new_stream_exists", "api_ref_storage_on_stream", "api_ref_stream_on_storage", "api_ref_parent_missing",
           "api_ref_parent_is_stream", "api_ref_remove_storage_on_stream", "api_ref_remove_stream_on_storage", "api_ref_remove_root",
           "api_ref_remove_missing", "api_ref_open_storage", "api_ref_escape_root", "api_ref_clsid_on_stream", "api_ref_state_missing"]:
     harness(n, props=["C10", "C01"], tier=("quick" if n in ("api_ref_new_stream_exists", "api_ref_parent_is_stream", "api_ref_remove_stream_on_storage") else "thorough"),
-            timeout=3000, mem=12, stubs=[FMT, STUB_UP],
+            timeout=3000, mem=6, stubs=[FMT, STUB_UP, "OsStr :: to_str"],
             what="a call the abstract model refuses (%s) returns exactly the model's error kind and leaves image and caches bit-identical" % n[8:],
             bounds="concrete path on a 3-entry file with symbolic contents/metadata", functions=API_F, assumes=[A_SHAPE, A_UPTABLE])
-harness("api_setters", props=["C17", "C02", "C07", "C01"], timeout=3000, mem=12, stubs=[FMT, STUB_UP],
+harness("api_setters", props=["C17", "C02", "C07", "C01"], timeout=3000, mem=6, stubs=[FMT, STUB_UP, "OsStr :: to_str"],
         what="set_state_bits / set_storage_clsid with arbitrary values through differently spelled paths: entry() returns them exactly, the directory sector equals the old entries with exactly the set fields replaced (write-through, other entries untouched), streams keep a nil CLSID",
         bounds="all u32 state bits, 96 symbolic CLSID bits", functions=API_F + ["Entry::new"], assumes=[A_SHAPE, A_UPTABLE])
 
